@@ -7,10 +7,12 @@ ops:
         one entry of `runs` per `ReferenceResolver` (model file of a load), in history order; each entry the
         references of its list attributes in the order they got resolved
      → {"runs":[[[obj,attr,[tgt…]]…]…]}   per run the content of every list attribute that occurs in it
-  {"op":"schedule","loads":[[[[obj,attr,pos,tgt,wait]…]…]…]}
-        per load its model files (any fixed order), per file the references of its list attributes in TEXTUAL
-        order with the number of provider calls answered `Postponed` (`wait`).  The model runs the resolver loop
-        itself (`Resolve.loopO` with `countOracle`: all files of a load, round after round) and feeds every
+  {"op":"schedule","loads":[[[[obj,attr,pos,tgt,wait(,dep)]…]…]…]}
+        per load its model files (any fixed order), per file the references (list attributes, and the single
+        references other providers walk over) in TEXTUAL order with the number of provider calls answered
+        `Postponed` (`wait`) and optionally `dep` = 1 + index (within the file) of the reference the provider
+        asks the resolver about (`needs_to_be_resolved`; 0 / absent = none).  The model runs the resolver loop
+        itself (`Resolve.loopO` with `depOracle`: all files of a load, round after round) and feeds every
         file's own `ReferenceResolver` (`RefList.run`) with the part of the resolution sequence that is its own
      → {"loads":[{"pending":n,"files":[{"seq":[[obj,attr,pos]…],"lists":[[obj,attr,[tgt…]]…]}…]}…]}
   ("history" accepts the field "loads" as well and then answers both "runs" and "loads")
@@ -34,12 +36,16 @@ structure SRef where
   k : KRef
   wait : Nat
   file : Nat
+  /-- index (within the file, textual order) of the reference whose attribute the provider walks over -/
+  dep : Option Nat := none
 
 def parseSRefs (file : Nat) (j : Json) : Option (List SRef) := do
   let a ← asArr? j
   a.toList.mapM fun e => do
     match ← asNatList? e with
     | [o, a, p, t, w] => pure { k := { key := (o, a), pos := p, tgt := t }, wait := w, file := file }
+    | [o, a, p, t, w, 0] => pure { k := { key := (o, a), pos := p, tgt := t }, wait := w, file := file }
+    | [o, a, p, t, w, d+1] => pure { k := { key := (o, a), pos := p, tgt := t }, wait := w, file := file, dep := some d }
     | _ => none
 
 def parseLoad (j : Json) : Option (List (List SRef)) := do
@@ -50,7 +56,12 @@ def runLoad (files : List (List SRef)) : Json :=
   let tab : Array SRef := files.flatten.toArray
   let refs := List.range tab.size
   let wait (r : Nat) : Nat := match tab[r]? with | some s => s.wait | none => 0
-  let (p, res) := Resolve.loopO (Resolve.countOracle wait) (refs.length + 1) [] refs []
+  -- first reference of every file in the flattened table: a dependency is an index within its file
+  let starts : Array Nat := (files.foldl (fun (acc : Array Nat × Nat) f => (acc.1.push acc.2, acc.2 + f.length)) (#[], 0)).1
+  let dep (r : Nat) : List Nat := match tab[r]? with
+    | some s => (match s.dep with | some d => [starts[s.file]?.getD 0 + d] | none => [])
+    | none => []
+  let (p, res) := Resolve.loopO (Resolve.depOracle wait dep) (refs.length + 1) [] refs []
   let seq := res.reverse
   let perFile := (List.range files.length).map fun fi =>
     let fseq := seq.filterMap fun r => match tab[r]? with
